@@ -103,6 +103,7 @@ def body_tales(e: int, ak: int, bk: int, s: str, t: str, nseq: int, callf: bool)
     seq = [s, t][:nseq]
     m = {"k": s}
     real = simpleTALES.Context(allowPythonPath=0)
+    real.log = T.NullLog()
     ref = R.Ctx({})
     for k, v in (("a", a), ("b", b), ("seq", seq), ("m", m), ("f", f), ("n", None)):
         real.addGlobal(k, v)
